@@ -1,58 +1,8 @@
-// vcheck is the check driver: vcheck <ID> [--tier quick|thorough] [--replay file]
+// vcheck is the check driver: vcheck [--tier quick|thorough] [--replay file] <ID>
 package main
 
-import (
-	"flag"
-	"fmt"
-	"os"
-	"sort"
-	"testing"
+import "verif/driver"
 
-	"verif/verdict"
-)
+var registry = map[string]driver.CheckFn{}
 
-type checkFn func(c *verdict.Ctx) int
-
-var registry = map[string]checkFn{}
-
-func main() {
-	testing.Init()
-	tier := flag.String("tier", "quick", "quick|thorough")
-	replay := flag.String("replay", "", "replay file")
-	flag.Parse()
-	if flag.NArg() < 1 {
-		ids := []string{}
-		for k := range registry {
-			ids = append(ids, k)
-		}
-		sort.Strings(ids)
-		fmt.Fprintln(os.Stderr, "usage: vcheck [--tier t] [--replay f] <ID>; known:", ids)
-		os.Exit(2)
-	}
-	id := flag.Arg(0)
-	fn, ok := registry[id]
-	if !ok {
-		fmt.Fprintln(os.Stderr, "unknown check", id)
-		os.Exit(2)
-	}
-	if t := os.Getenv("VERIF_TIER"); t == "quick" || t == "thorough" {
-		if !isFlagSet("tier") {
-			*tier = t
-		}
-	}
-	c := verdict.New(id, *tier)
-	if *replay != "" {
-		c.SetReplay(*replay)
-	}
-	os.Exit(fn(c))
-}
-
-func isFlagSet(name string) bool {
-	set := false
-	flag.Visit(func(f *flag.Flag) {
-		if f.Name == name {
-			set = true
-		}
-	})
-	return set
-}
+func main() { driver.Main(registry) }
